@@ -89,6 +89,10 @@ type FCase struct {
 	Dst       string        `json:"dst"`
 	Faults    []Fault       `json:"faults"`
 	PreCancel bool          `json:"precancel"` // the context is cancelled before the call
+	CancelAt  int           `json:"cancelat"`  // controlled schedule only: cancel the context at this quiescent point (0 = never):
+	//                                             every goroutine of the call is blocked then (parked operation, Acquire, done channel)
+	Cut       []int         `json:"cut"`       // ExtendedCopyGraph: FindPredecessors answers "none" for these nodes (they become roots
+	//                                             although other roots reach them: nested roots)
 	MapRoot   bool          `json:"maproot"`   // Copy gets an (identity) MapRoot: a prologue fault point
 	Mount     bool          `json:"mount"`     // the destination is a registry.Mounter and MountFrom is set (g, t, x)
 	Sched     bool          `json:"sched"`     // controlled schedule under testing/synctest
@@ -150,13 +154,14 @@ func (s *fsched) releaseOne() bool {
 
 // runFScheduled runs fn in a synctest bubble; stuck = at some quiescent point nothing was
 // parked and the call had not returned (then unstick() is called once, to let the goroutines go).
-func runFScheduled(s *fsched, fn func(), unstick func()) (stuck bool) {
+func runFScheduled(s *fsched, fn func(), unstick func(), atQuiescent func(k int)) (stuck bool) {
 	synctest.Test(T, func(t *testing.T) {
 		done := make(chan struct{})
 		go func() {
 			defer close(done)
 			fn()
 		}()
+		quiescent := 0
 		for {
 			synctest.Wait()
 			select {
@@ -164,6 +169,8 @@ func runFScheduled(s *fsched, fn func(), unstick func()) (stuck bool) {
 				return
 			default:
 			}
+			quiescent++
+			atQuiescent(quiescent)
 			if !s.releaseOne() {
 				if stuck {
 					return // still stuck after the cancellation: synctest reports the deadlock (process crash -> FParent)
@@ -191,6 +198,8 @@ type fcall struct {
 	slow   map[int]bool
 	under  oras.Target // the destination's underlying store (monitor)
 	viol   []string    // monitor: pushes that completed before a successor was present
+	extraFired []string
+	seed   uint64
 }
 
 func (f *fcall) pause(n int) {
@@ -202,7 +211,7 @@ func (f *fcall) pause(n int) {
 		f.lmu.Lock()
 		a := f.lat.Intn(3)
 		f.lmu.Unlock()
-		time.Sleep(time.Duration(1+a) * time.Millisecond)
+		time.Sleep(time.Duration(400+300*a) * time.Microsecond)
 		return
 	}
 	f.rec.delay()
@@ -235,8 +244,13 @@ func (f *fcall) hit(op string, n int, after bool) bool {
 	return true
 }
 
+func fhash(seed, a uint64, tag string) uint64 {
+	h := sha256.Sum256([]byte(fmt.Sprintf("%d/%d/%s", seed, a, tag)))
+	return binary.LittleEndian.Uint64(h[:8])
+}
+
 func isCallback(op string) bool {
-	return op == "pre" || op == "post" || op == "skip" || op == "maproot" || op == "mountfrom" || op == "mounted"
+	return op == "pre" || op == "post" || op == "skip" || op == "maproot" || op == "resolve" || op == "mountfrom" || op == "mounted"
 }
 
 type fsrc struct{ f *fcall; under content.ReadOnlyGraphStorage }
@@ -297,10 +311,23 @@ func (s *fsrc) Predecessors(ctx context.Context, d ocispec.Descriptor) ([]ocispe
 type fsrcT struct {
 	*fsrc
 	t oras.ReadOnlyTarget
+	f *fcall
 }
 
 func (s fsrcT) Resolve(ctx context.Context, ref string) (ocispec.Descriptor, error) {
-	return s.t.Resolve(ctx, ref)
+	f := s.f
+	f.pause(-1)
+	if f.hit("resolve", -1, false) {
+		f.ev("QX", 0, 0)
+		return ocispec.Descriptor{}, errFault
+	}
+	d, err := s.t.Resolve(ctx, ref)
+	if err != nil {
+		f.ev("QX", 0, 0)
+		return d, err
+	}
+	f.ev("QK", 0, 0)
+	return d, nil
 }
 
 type fdst struct{ f *fcall }
@@ -453,9 +480,7 @@ func (d fdstMount) Mount(ctx context.Context, t ocispec.Descriptor, fromRepo str
 		f.ev(fmt.Sprintf("MX.%d.0", n), 0, -1)
 		return errFault
 	}
-	f.lmu.Lock()
-	mounted := f.lat.Intn(3) == 0
-	f.lmu.Unlock()
+	mounted := fhash(f.seed, uint64(n+1), fromRepo)%3 == 0 // (a function of the case, not of the interleaving: replays reproduce)
 	if mounted && n >= 0 {
 		if err := f.under.Push(ctx, t, bytes.NewReader(f.g.Nodes[n].Bytes)); err != nil && !errors.Is(err, errdef.ErrAlreadyExists) {
 			f.ev(fmt.Sprintf("MX.%d.0", n), 0, -1)
@@ -541,6 +566,9 @@ func FRoots(c *FCase, g *dag.Graph) []int {
 		}
 		seen[i] = true
 		ps := g.Preds(i)
+		if inSet(c.Cut, i) {
+			ps = nil
+		}
 		if len(ps) == 0 {
 			roots = append(roots, i)
 		}
@@ -562,6 +590,9 @@ func fAncestors(c *FCase, g *dag.Graph) []int {
 			return
 		}
 		seen[i] = true
+		if inSet(c.Cut, i) {
+			return
+		}
 		for _, p := range g.Preds(i) {
 			up(p)
 		}
@@ -604,12 +635,12 @@ func observe(ctx context.Context, dst oras.Target, g *dag.Graph, r *rec, tagged 
 }
 
 // runCall performs one call of the case's API with the given faults.
-func runCall(c *FCase, g *dag.Graph, src, dst oras.Target, faults []Fault, preCancel bool, seed uint64, watchdog time.Duration) *FCall {
+func runCall(c *FCase, g *dag.Graph, src, dst oras.Target, faults []Fault, preCancel bool, cancelAt int, seed uint64, watchdog time.Duration) *FCall {
 	r := &rec{idx: map[dkeyT]int{}, lat: common.NewRand(seed)}
 	for _, n := range g.Nodes {
 		r.idx[keyOf(n.Desc)] = n.ID
 	}
-	f := &fcall{rec: r, c: c, g: g, faults: faults, fired: make([]bool, len(faults)), slow: map[int]bool{}, under: dst}
+	f := &fcall{rec: r, c: c, g: g, faults: faults, fired: make([]bool, len(faults)), slow: map[int]bool{}, under: dst, seed: seed}
 	for _, s := range c.Slow {
 		f.slow[s] = true
 	}
@@ -658,9 +689,7 @@ func runCall(c *FCase, g *dag.Graph, src, dst oras.Target, faults []Fault, preCa
 			}
 			f.ev(fmt.Sprintf("CB.mountfrom.%d", n), 0, 0)
 			f.pause(n)
-			f.lmu.Lock()
-			k := f.lat.Intn(4)
-			f.lmu.Unlock()
+			k := int(fhash(f.seed, uint64(n+1), "mountfrom") % 4)
 			return []string{"repo/a", "repo/b", "repo/c"}[:k], nil
 		}
 	}
@@ -683,7 +712,22 @@ func runCall(c *FCase, g *dag.Graph, src, dst oras.Target, faults []Fault, preCa
 		case "g":
 			call.Err = oras.CopyGraph(ctx, sw, gdst, g.Nodes[c.Root].Desc, gopts)
 		case "x":
-			call.Err = oras.ExtendedCopyGraph(ctx, sw, gdst, g.Nodes[c.Root].Desc, oras.ExtendedCopyGraphOptions{CopyGraphOptions: gopts})
+			xo := oras.ExtendedCopyGraphOptions{CopyGraphOptions: gopts}
+			if len(c.Cut) > 0 {
+				// a filtering FindPredecessors: the cut nodes have "no predecessors" and become roots, although
+				// other roots reach them (the case extendedcopy.go's region.End() before copyGraph is written for)
+				xo.FindPredecessors = func(ctx context.Context, s content.ReadOnlyGraphStorage, d ocispec.Descriptor) ([]ocispec.Descriptor, error) {
+					ps, err := s.Predecessors(ctx, d)
+					if err != nil {
+						return nil, err
+					}
+					if inSet(c.Cut, f.node(d)) {
+						return nil, nil
+					}
+					return ps, nil
+				}
+			}
+			call.Err = oras.ExtendedCopyGraph(ctx, sw, gdst, g.Nodes[c.Root].Desc, xo)
 		default:
 			opts := oras.CopyOptions{CopyGraphOptions: gopts}
 			if c.MapRoot {
@@ -703,13 +747,30 @@ func runCall(c *FCase, g *dag.Graph, src, dst oras.Target, faults []Fault, preCa
 			} else if c.Mount {
 				d = fdstMount{dw}
 			}
-			_, call.Err = oras.Copy(ctx, fsrcT{sw, src}, fSrcRef, d, fDstRef, opts)
+			_, call.Err = oras.Copy(ctx, fsrcT{sw, src, f}, fSrcRef, d, fDstRef, opts)
+		}
+		// the return is logged at once: a straggler goroutine that outlives the call logs AFTER it
+		// and the transition system rejects the trace (nothing follows Ret)
+		if call.Err == nil {
+			r.ev("RT.1", 0, 0)
+		} else {
+			r.ev("RT.0", 0, 0)
 		}
 	}
 	base := runtime.NumGoroutine()
 	if c.Sched && T != nil {
 		f.fs = &fsched{rng: common.NewRand(seed ^ 0x5ced)}
-		call.Stuck = runFScheduled(f.fs, do, cancel)
+		call.Stuck = runFScheduled(f.fs, do, cancel, func(k int) {
+			if cancelAt > 0 && k == cancelAt {
+				// the call has not returned (checked by the caller of this hook) and every goroutine is blocked
+				f.fmu.Lock()
+				f.nfired++
+				f.extraFired = append(f.extraFired, fmt.Sprintf("cancel-at-quiescent-point@%d", k))
+				f.fmu.Unlock()
+				f.ev("CN", 0, 0)
+				cancel()
+			}
+		})
 	} else {
 		done := make(chan struct{})
 		go func() {
@@ -734,18 +795,16 @@ func runCall(c *FCase, g *dag.Graph, src, dst oras.Target, faults []Fault, preCa
 			call.Leak = n - base
 		}
 	}
-	if call.Err == nil {
-		r.ev("RT.1", 0, 0)
-	} else {
-		r.ev("RT.0", 0, 0)
-	}
-	call.Toks = r.toks
+	r.mu.Lock()
+	call.Toks = append([]string(nil), r.toks...)
+	r.mu.Unlock()
 	call.Fired = f.nfired
 	for i, ft := range faults {
 		if f.fired[i] {
 			call.FiredL = append(call.FiredL, ft.String())
 		}
 	}
+	call.FiredL = append(call.FiredL, f.extraFired...)
 	if preCancel {
 		call.Fired++
 		call.FiredL = append(call.FiredL, "precancel")
@@ -799,11 +858,11 @@ func ExecuteF(c *FCase, watchdog time.Duration) *FResult {
 		res.SetupErr = err
 		return res
 	}
-	res.First = runCall(c, g, src, dst, c.Faults, c.PreCancel, c.Seed, watchdog)
+	res.First = runCall(c, g, src, dst, c.Faults, c.PreCancel, c.CancelAt, c.Seed, watchdog)
 	if res.First.Hang {
 		return res
 	}
-	res.Rerun = runCall(c, g, src, dst, nil, false, c.Seed^0x9e3779b97f4a7c15, watchdog)
+	res.Rerun = runCall(c, g, src, dst, nil, false, 0, c.Seed^0x9e3779b97f4a7c15, watchdog)
 	return res
 }
 
@@ -958,6 +1017,91 @@ func sharedGraph(r *common.Rand, tag uint64) *dag.Graph {
 	return g
 }
 
+// shared2 roles: node ids of the two-level sharing shape
+//
+//	R -> M1, G, G2 ;  M1 -> X ;  P -> X ;  G -> P, Q, S ;  G2 -> P
+//
+// P is a shared NON-LEAF node (claimed under one of G / G2, awaited by the other in another frame),
+// its successor X is claimed elsewhere (M1) and may be slow, Q is the sibling of P whose transfer
+// fails, S a slow sibling that keeps G's syncutil.Go from returning.
+type shared2Roles struct{ X, P, Q, S, M1, G, G2, R int }
+
+func shared2Graph(r *common.Rand, tag uint64) (*dag.Graph, shared2Roles, []int) {
+	g := &dag.Graph{}
+	blob := func(name string) int {
+		id := len(g.Nodes)
+		bs := []byte(fmt.Sprintf("shared2-%s-%d-%d-%d", name, tag, id, r.U64()))
+		g.Nodes = append(g.Nodes, &dag.Node{ID: id, Kind: dag.KBlob, Bytes: bs, Desc: fDesc(ocispec.MediaTypeImageLayer, bs), Subject: -1, TwinOf: -1})
+		return id
+	}
+	image := func(cfg int, layers ...int) int {
+		id := len(g.Nodes)
+		m := ocispec.Manifest{MediaType: ocispec.MediaTypeImageManifest, Config: g.Nodes[cfg].Desc, Layers: []ocispec.Descriptor{}}
+		m.SchemaVersion = 2
+		m.Annotations = map[string]string{"verif.shared2": fmt.Sprintf("%d-%d", tag, id)}
+		nd := &dag.Node{ID: id, Kind: dag.KImage, Subject: -1, TwinOf: -1, Succ: []int{cfg}, Annotations: m.Annotations}
+		for _, l := range layers {
+			m.Layers = append(m.Layers, g.Nodes[l].Desc)
+			nd.Succ = append(nd.Succ, l)
+		}
+		bs, _ := json.Marshal(m)
+		nd.Bytes, nd.Desc = bs, fDesc(m.MediaType, bs)
+		g.Nodes = append(g.Nodes, nd)
+		return id
+	}
+	index := func(members ...int) int {
+		id := len(g.Nodes)
+		ix := ocispec.Index{MediaType: ocispec.MediaTypeImageIndex, Manifests: []ocispec.Descriptor{}}
+		ix.SchemaVersion = 2
+		ix.Annotations = map[string]string{"verif.shared2": fmt.Sprintf("%d-%d", tag, id)}
+		nd := &dag.Node{ID: id, Kind: dag.KIndex, Subject: -1, TwinOf: -1}
+		for _, m := range members {
+			ix.Manifests = append(ix.Manifests, g.Nodes[m].Desc)
+			nd.Succ = append(nd.Succ, m)
+		}
+		bs, _ := json.Marshal(ix)
+		nd.Bytes, nd.Desc = bs, fDesc(ix.MediaType, bs)
+		g.Nodes = append(g.Nodes, nd)
+		return id
+	}
+	var ro shared2Roles
+	var extra []int // descendants of S / X: more candidates for "slow"
+	ro.X = blob("x")
+	// Q and S: a blob, or a small image manifest (then its config is a further place for the fault / the delay)
+	mk := func(name string) (int, int) {
+		b := blob(name)
+		if r.Bool() {
+			return image(b), b
+		}
+		return b, -1
+	}
+	var qc, sc int
+	ro.Q, qc = mk("q")
+	ro.S, sc = mk("s")
+	_ = qc
+	if sc >= 0 {
+		extra = append(extra, sc)
+	}
+	if r.Chance(1, 3) {
+		ro.P = image(ro.X, blob("pl"))
+	} else {
+		ro.P = image(ro.X)
+	}
+	ro.M1 = image(ro.X)
+	gm := []int{ro.P, ro.Q, ro.S}
+	common.Shuffle(r, gm)
+	ro.G = index(gm...)
+	if r.Chance(1, 3) {
+		ro.G2 = index(ro.P, image(blob("g2c")))
+	} else {
+		ro.G2 = index(ro.P)
+	}
+	rm := []int{ro.M1, ro.G, ro.G2}
+	common.Shuffle(r, rm)
+	ro.R = index(rm...)
+	return g, ro, extra
+}
+
 func distinctDigests(g *dag.Graph) bool {
 	seen := map[string]bool{}
 	for _, n := range g.Nodes {
@@ -976,6 +1120,9 @@ var fOps = []string{"exists", "exists", "fetch", "fetch", "push", "push", "push"
 func GenerateF(genseed uint64, stream string, thorough bool) *FCase {
 	r := common.NewRand(genseed)
 	c := &FCase{Stream: stream, GenSeed: genseed, Thorough: thorough}
+	if stream == "shared2" || stream == "schedshared2" {
+		return generateShared2(r, c)
+	}
 	var g *dag.Graph
 	shared := stream == "shared" || stream == "schedshared" || ((stream == "exh") && r.Chance(1, 2))
 	for {
@@ -1050,6 +1197,24 @@ func GenerateF(genseed uint64, stream string, thorough bool) *FCase {
 		c.Mount = true
 	}
 
+	if c.API == "x" && r.Chance(1, 2) {
+		// nested roots: cut the upward walk at one or two ancestors that do have predecessors
+		var cand []int
+		for _, a := range fAncestors(c, g) {
+			if len(g.Preds(a)) > 0 {
+				cand = append(cand, a)
+			}
+		}
+		for i := 0; i < 2 && len(cand) > 0; i++ {
+			if i == 0 || r.Chance(1, 3) {
+				c.Cut = append(c.Cut, common.Pick(r, cand))
+			}
+		}
+		sort.Ints(c.Cut)
+	}
+	if c.Sched && r.Chance(1, 5) {
+		c.CancelAt = 1 + r.Intn(40)
+	}
 	roots := FRoots(c, g)
 	reach := map[int]bool{}
 	for _, rt := range roots {
@@ -1083,6 +1248,9 @@ func GenerateF(genseed uint64, stream string, thorough bool) *FCase {
 		}
 		if c.API == "t" && r.Chance(1, 6) {
 			ft.Op, ft.Node = "tag", c.Root
+		}
+		if (c.API == "t" || c.API == "r") && r.Chance(1, 10) {
+			ft.Op, ft.Node, ft.After = "resolve", -1, false
 		}
 		if c.Mount && ft.Node >= 0 && !g.Nodes[ft.Node].IsManifest() && r.Chance(3, 4) {
 			ft.Op = common.Pick(r, []string{"mount", "mount", "mountfrom", "mounted", "pre", "fetch"})
@@ -1149,6 +1317,61 @@ func GenerateF(genseed uint64, stream string, thorough bool) *FCase {
 	return c
 }
 
+// generateShared2: two-level sharing.  The transfer of Q (a sibling of the shared non-leaf node P)
+// fails while P waits for its successor X, which was claimed elsewhere; S keeps the group of
+// P's parent G busy, so that the other parent G2 (another frame, context not yet cancelled) looks at
+// P's done channel.  The property demands that G2 is NOT pushed (P is absent).
+func generateShared2(r *common.Rand, c *FCase) *FCase {
+	g, ro, extra := shared2Graph(r, c.GenSeed)
+	c.Graph = g.Encode()
+	c.Seed = r.U64()
+	c.API = common.Pick(r, []string{"g", "g", "g", "t", "x"})
+	c.Root = ro.R
+	if c.API == "x" {
+		c.Root = common.Pick(r, []int{ro.X, ro.P, ro.Q})
+	}
+	c.K = common.Pick(r, []int{8, 8, 8, 4, 0, 3})
+	c.Src = common.Pick(r, []string{"mem", "mem", "mem", "oci"})
+	c.Dst = common.Pick(r, []string{"mem", "mem", "mem", "oci"})
+	c.Sched = c.Stream == "schedshared2"
+	// the failing transfer: Q itself, or a successor of Q (then Q's own syncutil.Go fails)
+	fn := ro.Q
+	if su := g.Nodes[ro.Q].Succ; len(su) > 0 && r.Chance(1, 3) {
+		fn = su[0]
+	}
+	op := common.Pick(r, []string{"push", "push", "push", "fetch", "exists", "pre", "post"})
+	c.Faults = []Fault{{Op: op, Node: fn, After: r.Bool() && op != "push"}}
+	// slow: the grandchild claimed elsewhere and the other sibling (+ its descendants), sometimes M1 too
+	switch v := r.Intn(8); {
+	case v < 4:
+		// X (claimed elsewhere) is slow: P sits in its wait when its context is cancelled
+		c.Slow = append(c.Slow, ro.X)
+	case v < 6:
+		// P itself is late: when it reaches its wait, X is done AND its context is cancelled (the select may
+		// take either arm; after the done arm, region.Start fails)
+		c.Slow = append(c.Slow, ro.P)
+	default:
+		// few permits, all held by Q (about to fail) and the slow S: P is blocked in region.Start when
+		// its context is cancelled
+		c.K = common.Pick(r, []int{2, 2, 3})
+		if op == "exists" || op == "pre" {
+			c.Faults[0].Op = "push"
+			c.Faults[0].After = false
+		}
+	}
+	if r.Chance(7, 8) {
+		c.Slow = append(c.Slow, ro.S)
+		c.Slow = append(c.Slow, extra...)
+	}
+	if r.Chance(1, 4) {
+		c.Slow = append(c.Slow, ro.M1)
+	}
+	if r.Chance(1, 8) {
+		c.Faults = append(c.Faults, Fault{Op: common.Pick(r, fOps), Node: common.Pick(r, []int{ro.S, ro.X, ro.M1, ro.G2}), After: r.Bool(), Cancel: r.Chance(1, 3)})
+	}
+	return c
+}
+
 // allPlacements: every single fault placement of the case (thorough "exh" stream).
 func allPlacements(c *FCase, g *dag.Graph) []Fault {
 	roots := FRoots(c, g)
@@ -1189,6 +1412,9 @@ func allPlacements(c *FCase, g *dag.Graph) []Fault {
 	}
 	if c.MapRoot {
 		out = append(out, Fault{Op: "maproot", Node: -1}, Fault{Op: "maproot", Node: -1, Cancel: true})
+	}
+	if c.API == "t" || c.API == "r" {
+		out = append(out, Fault{Op: "resolve", Node: -1}, Fault{Op: "resolve", Node: -1, Cancel: true})
 	}
 	if c.API == "t" {
 		for _, after := range []bool{false, true} {
@@ -1264,6 +1490,7 @@ type fReplayDoc struct {
 // FBudget of one harness run.
 type FBudget struct {
 	Rand, Shared      int // free-running cases
+	Shared2, SchedShared2 int // two-level sharing (a shared non-leaf node), free-running / controlled
 	Sched, SchedShared int // controlled schedules (test binary only)
 	Reps              int // extra schedules per generated case
 	Exh               int // base cases whose every single fault placement is run (x ExhReps schedules)
@@ -1307,8 +1534,8 @@ func DriveF(run *common.Run, b FBudget) {
 			fails++
 			run.OracleFail(id, sig, msg, rp)
 		}
-		desc := fmt.Sprintf("mounter=%v api=%s root=%d roots=%v K=%d %s->%s d0=%v faults=%v precancel=%v slow=%v sched=%v graph=%v",
-			c.Mount, c.API, c.Root, res.Roots, c.K, c.Src, c.Dst, c.D0, c.Faults, c.PreCancel, c.Slow, c.Sched, g.Describe())
+		desc := fmt.Sprintf("cut=%v cancelat=%d mounter=%v api=%s root=%d roots=%v K=%d %s->%s d0=%v faults=%v precancel=%v slow=%v sched=%v graph=%v",
+			c.Cut, c.CancelAt, c.Mount, c.API, c.Root, res.Roots, c.K, c.Src, c.Dst, c.D0, c.Faults, c.PreCancel, c.Slow, c.Sched, g.Describe())
 		run.Count("stream=" + c.Stream)
 		run.Count("api=" + c.API)
 		run.Count("pair=" + c.Src + "->" + c.Dst)
@@ -1318,6 +1545,23 @@ func DriveF(run *common.Run, b FBudget) {
 		}
 		if c.Mount {
 			run.Count("dst-mounter")
+		}
+		if len(c.Cut) > 0 {
+			run.Count("nested-roots(FindPredecessors cut)")
+			nested := false
+			for _, a := range res.Roots {
+				for _, b := range res.Roots {
+					if a != b && g.Reach(a)[b] {
+						nested = true
+					}
+				}
+			}
+			if nested {
+				run.Count("nested-roots: a root is reachable from another root")
+			}
+		}
+		if c.CancelAt > 0 {
+			run.Count("cancel-at-quiescent-point planned")
 		}
 		if c.PreCancel {
 			run.Count("pre-cancelled-context")
@@ -1466,9 +1710,11 @@ func DriveF(run *common.Run, b FBudget) {
 	}
 	stream("rand", b.Rand, b.Reps)
 	stream("shared", b.Shared, b.Reps)
+	stream("shared2", b.Shared2, b.Reps)
 	if T != nil {
 		stream("sched", b.Sched, b.Reps)
 		stream("schedshared", b.SchedShared, b.Reps)
+		stream("schedshared2", b.SchedShared2, b.Reps)
 	}
 	for i := 0; i < b.Exh; i++ {
 		base := GenerateF(rootRand.U64(), "exh", run.Thorough())
@@ -1532,6 +1778,39 @@ func FRunAll(run *common.Run, quick, thorough FBudget) {
 	}
 	DriveF(run, b)
 	run.Finish()
+	if run.Replay == "" {
+		// coverage floors: a run that silently exercised nothing must not pass (exit 3 = layer R broken)
+		var low []string
+		need := func(key string, min int) {
+			if run.Dist[key] < min {
+				low = append(low, fmt.Sprintf("%s=%d (< %d)", key, run.Dist[key], min))
+			}
+		}
+		floor := func(budget int) int { return (budget + 1) / 2 }
+		need("stream=rand", floor(b.Rand))
+		need("stream=shared", floor(b.Shared))
+		need("stream=shared2", floor(b.Shared2))
+		if T != nil {
+			need("stream=sched", floor(b.Sched))
+			need("stream=schedshared", floor(b.SchedShared))
+			need("stream=schedshared2", floor(b.SchedShared2))
+			need("controlled-schedule(synctest)", floor(b.Sched+b.SchedShared+b.SchedShared2))
+		}
+		total := b.Rand + b.Shared + b.Shared2
+		need("first-call=injected-error", total/4)
+		need("first-call=context-canceled", total/40)
+		need("first-call=ok", total/100)
+		for _, k := range []string{"fired=push", "fired=fetch", "fired=exists", "fired=pre", "fired=post"} {
+			need(k, total/60)
+		}
+		need("api=x", total/20)
+		need("api=t", total/40)
+		need("api=r", total/60)
+		if len(low) > 0 && run.OracleFails == 0 {
+			fmt.Fprintf(os.Stderr, "C02 harness: coverage floor not reached: %s\n", strings.Join(low, "; "))
+			os.Exit(3)
+		}
+	}
 }
 
 // FParent runs the harness in a child process: a crash of the code under test (a panic in a
@@ -1557,6 +1836,9 @@ func FParent() int {
 		return 1
 	}
 	msg := errb.String()
+	if strings.Contains(msg, "harness setup failed") {
+		return 1 // (an unwritable TMPDIR, a malformed replay ...: a harness problem, not a verdict about the code)
+	}
 	sig := "crash"
 	if strings.Contains(msg, "deadlock") {
 		sig = "hang"
